@@ -211,4 +211,100 @@ def customPathsF : List (String × KS) → List String → List (String × Strin
   | (k, s) :: fs, p => customPaths s (k :: p) ++ customPathsF fs p
 end
 
+/-! ## custom `Unmarshal` hooks
+
+The built-in types with their own `Unmarshal(*confmap.Conf)` all have the same form: the generic
+decode, preceded or followed by a small fix-up that looks at which keys are written.  Each fix-up is
+a function over the typed tree, expressed with `setPath`. -/
+
+mutual
+/-- replace the value at a key path (through optionals; a nil optional on the way is left alone) -/
+def setPath : KS → TV → List String → TV → TV
+  | _, _, [], x => x
+  | .ptr _, .nilp, _ :: _, _ => .nilp
+  | .ptr s, t, k :: p, x => setPath s t (k :: p) x
+  | .struct fs, .struct tfs, k :: p, x => .struct (setF fs tfs k p x)
+  | _, t, _ :: _, _ => t
+def setF : List (String × KS) → List (String × TV) → String → List String → TV → List (String × TV)
+  | (k', s) :: fs, (kt, t) :: tfs, k, p, x =>
+    if k' == k then (kt, setPath s t p x) :: tfs else (kt, t) :: setF fs tfs k p x
+  | _, tfs, _, _, _ => tfs
+end
+
+/-- is the key path written (at least down to it)? — `conf.IsSet` -/
+def isSet (v : Val) (p : List String) : Bool := (valGet v p).isSome
+
+inductive Hook
+  /-- queuebatch.Config: `if IsSet(src) && !IsSet(dst) { dst = src }` after the decode (deprecated `blocking`) -/
+  | aliasIfUnset (at_ : List String) (src dst : String)
+  /-- otlpreceiver.Config: `if !IsSet(k) { field k = nil }` after the decode, for each optional protocol -/
+  | dropUnset (paths : List (List String))
+  /-- otlpexporter.Config: `if IsSet(k) { field k = <fresh default> }` before the decode (deprecated `batcher`);
+  the fresh value only matters for unwritten settings below the written key and is not modelled (zero value) -/
+  | resetWhenSet (path : List String)
+  /-- otlpreceiver.Config: `sanitizeURLPath` rewrites these *written* leaves (adds the leading "/"): the result is not
+  modelled; the positions are excluded from the faithfulness claims (named exception) -/
+  | normalizes (paths : List (List String))
+deriving Repr
+
+def preHook (S : KS) (v : Val) (d : TV) : Hook → TV
+  | .resetWhenSet q => if isSet v q then setPath S d q ((kindAt S q).elim d zero) else d
+  | _ => d
+
+def postHook (S : KS) (v : Val) (t : TV) : Hook → TV
+  | .aliasIfUnset q src dst =>
+    if isSet v (q ++ [src]) && !isSet v (q ++ [dst]) then
+      match getS S t (q ++ [src]) with
+      | some (.atom a) => setPath S t (q ++ [dst]) (.atom a)
+      | _ => t
+    else t
+  | .dropUnset paths => paths.foldl (fun t q => if isSet v q then t else setPath S t q .nilp) t
+  | .resetWhenSet _ => t
+  | .normalizes _ => t
+
+/-- a component's `Unmarshal`: fix-ups before, the generic decode, fix-ups after -/
+def decodeC (hooks : List Hook) (S : KS) (d : TV) (v : Val) : Option TV :=
+  (decodeV S (hooks.foldl (preHook S v) d) v).map (fun t => hooks.foldl (postHook S v) t)
+
+def incomparable (q p : List String) : Bool := !(q.isPrefixOf p) && !(p.isPrefixOf q)
+
+/-- the hook sits on positions of the kinds it expects -/
+def Hook.wellPlaced (S : KS) : Hook → Bool
+  | .aliasIfUnset q src dst =>
+    (kindAt S (q ++ [src])).map isLeafKind == some true && (kindAt S (q ++ [dst])).map isLeafKind == some true
+  | .dropUnset paths => paths.all (fun q => match kindAt S q with | some (.ptr _) => true | _ => false)
+  | .resetWhenSet q => (kindAt S q).isSome
+  | .normalizes paths => paths.all (fun q => (kindAt S q).map isLeafKind == some true)
+
+/-- the hook does not touch the key path `p` for this written configuration: it does not fire, or what it
+rewrites is neither above nor below `p` -/
+def Hook.compatible (v : Val) (p : List String) : Hook → Bool
+  | .aliasIfUnset q src dst => !(isSet v (q ++ [src]) && !isSet v (q ++ [dst])) || incomparable (q ++ [dst]) p
+  | .dropUnset paths => paths.all (fun q => isSet v q || incomparable q p)
+  | .resetWhenSet _ => true
+  | .normalizes paths => paths.all (fun q => incomparable q p)
+
+/-- the key paths a hook may rewrite although they are not written (the named exceptions of "unwritten
+settings keep their default") -/
+def Hook.targets : Hook → List (List String)
+  | .aliasIfUnset q _ dst => [q ++ [dst]]
+  | .dropUnset paths => paths
+  | .resetWhenSet q => [q]
+  | .normalizes paths => paths
+
+/-- the hand-modelled fix-ups of the built-in types with their own `Unmarshal`, by Go type name, for a
+position at key path `q` of a component (which type sits where is regenerated: `Gen.customPositions`) -/
+def hooksOfType (goType : String) (q : List String) : Option (List Hook) :=
+  if goType == "queuebatch.Config" then some [.aliasIfUnset q "blocking" "block_on_overflow"]
+  else if goType == "otlpreceiver.Config" then
+    some [.dropUnset [q ++ ["protocols", "grpc"], q ++ ["protocols", "http"]],
+          .normalizes [q ++ ["protocols", "http", "traces_url_path"], q ++ ["protocols", "http", "metrics_url_path"],
+                       q ++ ["protocols", "http", "logs_url_path"]]]
+  else if goType == "otlpexporter.Config" then some [.resetWhenSet (q ++ ["batcher"])]
+  else none
+
+/-- all fix-ups of a component, from the regenerated list of custom positions; `none` if some position has no model -/
+def componentHooks (custom : List (String × List String × String)) (comp : String) : Option (List Hook) :=
+  ((custom.filter (fun c => c.1 == comp)).mapM (fun c => hooksOfType c.2.2 c.2.1)).map List.flatten
+
 end OtelVerif.C13
